@@ -734,8 +734,11 @@ static JanetSignal run_vm(JanetFiber *fiber, Janet in) {
             if (x2 == 0) {
                 stack[A] = janet_wrap_number(x1);
             } else {
-                double intres = x2 * floor(x1 / x2);
-                stack[A] = janet_wrap_number(x1 - intres);
+                /* fmod is exact; x1 - x2 * floor(x1 / x2) is not once the quotient passes 2^53
+                 * (it could even come out with the wrong sign or as large as the divisor). */
+                double rem = fmod(x1, x2);
+                if (rem != 0 && ((rem < 0) != (x2 < 0))) rem += x2;
+                stack[A] = janet_wrap_number(rem);
             }
             vm_pcnext();
         } else {
